@@ -1358,8 +1358,12 @@ def _site_domain(ctx, fi, cfg, nid, is_code, domain):
         if nid in cache[v]:
             alive.add(v)
     others = []
-    for g, pol, _ps in cfg.guards(nid):
+    for g, pol, ps in cfg.guards(nid):
         if not isinstance(g, ast.expr) or _eval_code_test(ctx, fi.module, g, is_code, 0) is None:
+            if isinstance(g, ast.expr):
+                # a guard over a local is a guard over what the local holds where it is tested
+                # (`number = opt.number ... if number == 2`): unique reaching definitions only
+                g = _resolve_at(fi, cfg, g, _test_node_of(cfg, ps))
             others.append((g, pol))
     return alive, others
 
@@ -1439,6 +1443,20 @@ def _is_mms_option(prog, fi, e):
     except NormError:
         return False
     return n == 2 and not isinstance(n, bool) and chain(val) == "self._my_max_message_size"
+
+
+def _str_const(prog, fi, e):
+    """the string an expression denotes: a literal, constant arithmetic on literals, or
+    an immutable module-level constant of the function's module; else None"""
+    if isinstance(e, ast.Name):
+        c = _consts_of(prog, fi)(e.id)
+        if c is not None:
+            e = c
+    try:
+        v = norm.consteval(e)
+    except NormError:
+        return None
+    return v if isinstance(v, str) else None
 
 
 @R.clause("C15.g", "signalling: CSM options 2/4, unknown critical options and unknown 7.xx abort, Ping is answered by Pong with the same token, Release/Abort fail the pending requests and close")
@@ -1523,19 +1541,69 @@ def g(ctx):
         if x is not fi.node and isinstance(x, (ast.Lambda, ast.FunctionDef, ast.AsyncFunctionDef)):
             inner = {chain(y) for y in ast.walk(x) if isinstance(y, ast.Attribute)} | {y.id for y in ast.walk(x) if isinstance(y, ast.Name)}
             ctx.need(FIELD not in inner and not (may & inner), "the peer's settings are used inside a nested function of _process_signaling")
+    # A store through receiver r at node n counts as a store into the settings when the
+    # object r holds at n is the object the field holds at the normal exit:
+    #  (A) r is the field, or a local that IS the field's object at n (must-alias), and the
+    #      field is not rebound on any way from n on (so its object at n is its object at exit);
+    #  (B) r is a local that is not rebound on any way from n on and IS the field's object
+    #      at the normal exit (the dictionary is filled first and published afterwards; nothing
+    #      can observe the difference inside a plain synchronous function).
+    # Everything else that might reach the settings (flow-insensitive may-aliases) is "unsure".
+    binders = K.binder_nodes(cfg, FIELD, calls_rebind)
+    after = {}
+    rebind_at = {}
+    for node in cfg.nodes:
+        for kind, site_, _k, val_, _r in K.dict_effects(node, set(), is_field):
+            if kind == "rebind":
+                rebind_at[node.id] = (site_, val_)
+    drops = set()
+
+    def later_binders(var, nid, fl):
+        if nid not in after:
+            after[nid] = cfg.reach({nid})
+        return {b for b in binders.get(var, set()) & after[nid] if fl.reachable(b)}
+
+    def field_fate(nid, fl):
+        """what happens, from node nid on, to the object the field holds at nid:
+        'kept' (never replaced), 'dropped' (replaced by a fresh object that owes
+        nothing to it: what was stored is lost), 'unsure'"""
+        fate = "kept"
+        for b in later_binders(FIELD, nid, fl):
+            rb = rebind_at.get(b)
+            if rb is None or rb[1] is None:
+                return "unsure"
+            val = rb[1]
+            if is_field(val) or (isinstance(val, ast.Name) and val.id in fl.aliases(b)):
+                continue  # assigns the object it already holds
+            if any(is_field(x) for x in ast.walk(val)) or ({x.id for x in ast.walk(val) if isinstance(x, ast.Name)} & (may | fl.aliases(b))):
+                return "unsure"  # may be a copy that carries the entries over
+            fate = "dropped"
+            drops.add(id(rb[0]))
+        return fate
+
     effects = {}  # (kind, id(site), key text) -> [kind, site, key, value, node id, alive codes]
     unsure = {}
     for v, fl in flows.items():
+        at_exit = fl.aliases(cfg.exit) if fl.reachable(cfg.exit) and is_plain_sync(fi) else set()
         for node in cfg.nodes:
             if not fl.reachable(node.id) or node.ast is None:
                 continue
-            sure = fl.aliases(node.id)
-            for kind, site_, *kv in K.dict_effects(node, sure, is_field):
-                key_, val_ = (kv + [None, None])[:2] if kind != "rebind" else (None, kv[0])
-                rec = effects.setdefault((kind, id(site_), _txt(key_) if key_ is not None else None), [kind, site_, key_, val_, node.id, set()])
-                rec[5].add(v)
-            for kind, site_, *kv in K.dict_effects(node, may - sure, lambda e: False):
-                if kind != "escape":
+            here = fl.aliases(node.id)
+            for kind, site_, key_, val_, recv in K.dict_effects(node, may | here | at_exit, is_field):
+                if kind == "rebind":
+                    ok = True
+                elif kind == "escape":
+                    ok = is_field(recv) or recv.id in here or recv.id in at_exit
+                elif is_field(recv) or recv.id in here:
+                    fate = field_fate(node.id, fl)
+                    # 'dropped' is reported at the assignment that drops it; the store itself is in order
+                    ok = fate != "unsure" or (not is_field(recv) and recv.id in at_exit and not later_binders(recv.id, node.id, fl))
+                else:
+                    ok = recv.id in at_exit and not later_binders(recv.id, node.id, fl)
+                if ok:
+                    rec = effects.setdefault((kind, id(site_), _txt(key_) if key_ is not None else None), [kind, site_, key_, val_, node.id, set()])
+                    rec[5].add(v)
+                elif kind != "escape":
                     unsure[id(site_)] = site_
     recs = sorted(effects.values(), key=lambda r: (r[4], r[0], _txt(r[2]) if r[2] is not None else ""))
     ctx.floor("stores to the peer's settings in _process_signaling", len([r for r in recs if r[0] in ("rebind", "set")]), 1)
@@ -1549,14 +1617,11 @@ def g(ctx):
             nonnull = val is not None and all(flows[v].nullness(val, flows[v].inn[nid]) == K.NULL_OBJ for v in alive)
             ctx.ob("the peer's settings are assigned only on a CSM, and never None", nonnull and alive == {csm}, fi, st,
                    detail="codes %s, value %s" % (sorted(alive), _txt(val) if val is not None else None))
+            ctx.ob("an assignment of the peer's settings does not discard options recorded before it", id(st) not in drops, fi, st)
         elif kind == "set":
-            alts = _possible_values(fi, cfg, key, nid)
-            kvs = []
-            for a_ in alts or [None]:
-                try:
-                    kvs.append(norm.consteval(a_) if a_ is not None else None)
-                except NormError:
-                    kvs.append(None)
+            free = isinstance(key, ast.Name) and key.id not in params(fi, skip_self=False) and not writes_to_name(fi.node, key.id)
+            alts = [key] if free else _possible_values(fi, cfg, key, nid)
+            kvs = [_str_const(prog, fi, a_) if a_ is not None else None for a_ in alts or [None]]
             if len(kvs) != 1 or not isinstance(kvs[0], str):
                 # a key that is computed (table lookup, several possible values): which
                 # option writes which key cannot be read off the guards of the site
@@ -1631,8 +1696,8 @@ def g(ctx):
             if k is None:
                 continue
             read += 1
-            k = resolve_local(mfi.node, k)
-            ctx.ob("peer settings are read under a key that _process_signaling writes", isinstance(k, ast.Constant) and k.value in seen_keys, mfi, x)
+            kv = _str_const(prog, mfi, resolve_local(mfi.node, k))
+            ctx.ob("peer settings are read under a key that _process_signaling writes", kv is not None and kv in seen_keys, mfi, x)
     ctx.floor("reads of the peer settings", read, 2)
 
     # aborts
@@ -2216,6 +2281,10 @@ R.seed("C15.g", F_TCP, "                    self._ctx._dispatch_error(self, e.ar
 R.seed("C15.g", F_TCP, "        self._tokenmanager.dispatch_error(exc, connection)\n", "        self._tokenmanager.dispatch_error(connection, exc)\n", "error and connection swapped")
 R.seed("C15.g", F_COMMON, "        block_length = optiontypes.UintOption(2, self._my_max_message_size)\n", "        block_length = optiontypes.UintOption(2, 1152)\n", "the announced Max-Message-Size is not the limit the size gate enforces")
 R.seed("C15.g", F_COMMON, "        my_csm.opt.add_option(block_length)\n", "        if self._my_max_message_size != 1152:\n            my_csm.opt.add_option(block_length)\n", "Max-Message-Size announced only on some paths")
+R.seed("C15.g", F_COMMON, "                self._remote_settings = {}\n", "                pass\n", "a CSM no longer marks the peer's settings as received")
+R.seed("C15.g", F_COMMON, "            if self._remote_settings is None:\n                self._remote_settings = {}\n", "            if self._remote_settings is None and msg.opt.option_list():\n                self._remote_settings = {}\n", "a CSM without options does not count as received")
+R.seed("C15.g", F_COMMON, "        if msg.code == CSM:\n            if self._remote_settings is None:\n                self._remote_settings = {}\n", "        if self._remote_settings is None:\n            self._remote_settings = {}\n        if msg.code == CSM:\n", "any signalling message marks the CSM as received")
+R.seed("C15.g", F_COMMON, "                    self._remote_settings[\"block-wise-transfer\"] = True\n", "                    self._remote_settings = {\"block-wise-transfer\": True}\n", "Block-Wise-Transfer option forgets the Max-Message-Size recorded before")
 R.seed("C15.g", "aiocoap/numbers/optionnumbers.py", "        return self & 0x01 == 0x01\n", "        return self & 0x02 == 0x02\n", "criticality read from the wrong bit")
 R.seed("C15.g", F_COMMON, "max_message_size = (self._remote_settings or {}).get(\"max-message-size\", 1152)\n        has_blockwise = (self._remote_settings or {}).get(\"block-wise-transfer\", False)\n        if max_message_size > 1152 and has_blockwise:\n            return 7", "max_message_size = (self._remote_settings or {}).get(\"max_message_size\", 1152)\n        has_blockwise = (self._remote_settings or {}).get(\"block-wise-transfer\", False)\n        if max_message_size > 1152 and has_blockwise:\n            return 7", "peer setting read under a key that is never written")
 # C15.e (the membership premise must not exempt an unguarded read)
